@@ -498,6 +498,19 @@ def run_group_(cloud, group, dyadic, info, big=False):
         if bad:
             chk.violation(key + ":float32", f"float32 solver answer violates {bad}",
                           replay_of(cloud, [lit], {"impl_times32": np.asarray(r.times, float)}), failing_input_found=True)
+    # ---- float32 solver, the whole geometry far from the origin -----------------
+    # (coordinates large compared with the leg lengths: the distances must still be those of the points,
+    #  to float32 rounding of the DISTANCE, not of the absolute coordinates)
+    if not dyadic and not big and rng.random() < 0.4:
+        off = np.array([rng.uniform(5.0, 40.0), 0.0 if info["dim"] == 2 else rng.uniform(-20.0, 20.0), rng.uniform(5.0, 40.0)])
+        far = {i: np.asarray(c, float) + off for i, c in cloud.items()}
+        chk.count(float32_far_from_origin=1)
+        for lit, r in zip(group, impl_solve(far, group, dtype=np.float32)):
+            evaluations += 1
+            bad = spec_check(far, lit, np.asarray(r.times), np.asarray(r.indices), 2e-6, dtype=np.float32)
+            if bad:
+                chk.violation(key + ":float32-far", f"float32 solver answer violates {bad} on a geometry translated by {off.tolist()}",
+                              replay_of(far, [lit], {"impl_times32": np.asarray(r.times, float), "offset": off}), failing_input_found=True)
     # ---- ray_tracing_for_paths, C and Fortran order --------------------------
     if rng.random() < (0.5 if not big else 0.2):
         for forder in (False, True):
